@@ -20,8 +20,9 @@ structure Ext where
   parseF : Str → Bool
   isDt : Str → Bool
   regexOk : Str → Bool
+  parseNat : Str → Option Nat
 
-def Ext.cn (E : Ext) (s : Str) : Out (Cn × Str) := parseCn E.parseI E.parseF E.isDt E.regexOk s
+def Ext.cn (E : Ext) (s : Str) : Out (Cn × Str) := parseCnAll E.parseI E.parseF E.isDt E.regexOk E.parseNat s
 
 inductive RType where
   | annotation | data | key | text | resource | dataset
